@@ -57,6 +57,18 @@ PLAN = {
         "assumptions": [A_S, A_N],
         "parts": [s_part("S-histories", "C03", LINUX3, 24000, 2400000), n_part("N-histories", "C03", 480, 48000)],
     },
+    "C06": {
+        "level": "fault_enumeration",
+        "rule": "sequential part: lifetimes with N in 0..6, 0..N+2 matching calls interleaved with 0-3 non-matching calls, through 4 fake! sites (with/without when, unit, assign+when), exit by drop or injected panic; concurrent part: see engine T; distinct = (site, N, matching, rejected, exit path) tuples",
+        "assumptions": [A_N],
+        "parts": [n_part("N-sequential-counting", "C06", 1600, 160000, selftest=64, extra_args=["--family", "count"])],
+    },
+    "C07": {
+        "level": "fault_enumeration",
+        "rule": "histories of 2-6 injector lifetimes that evaluate the same fake!(..., times: N) expression (one helper per site), N and call counts redrawn per lifetime, lifetimes ending by drop, verification panic or injected panic; each lifetime is judged by the C06 model on its own calls alone; distinct = (site, per-lifetime (N, matching, rejected, exit)) tuples",
+        "assumptions": [A_N],
+        "parts": [n_part("N-reused-call-sites", "C07", 1600, 160000, selftest=64, extra_args=["--family", "count"])],
+    },
     "C11": {
         "level": "fault_enumeration",
         "rule": "scenario = (variant, page size 4K/16K/64K, target position incl. below 128 MiB, neighbourhood empty/full/full-except-one-page/sparse, kernel policy: faithful or buggified hint rounding/fallback placement/ENOMEM); distinct = class tuples",
